@@ -78,11 +78,18 @@ end Rpylib.Alias
 
 namespace Rpylib.Alias
 
+theorem list_sum_nonneg : ∀ (l : List Rat), (∀ x ∈ l, 0 ≤ x) → 0 ≤ l.sum
+  | [], _ => by simp
+  | a :: l, h => by
+    have := list_sum_nonneg l (fun x hx => h x (by simp [hx]))
+    have := h a (by simp)
+    simp only [List.sum_cons]; linarith
+
 theorem sum_eq_zero_of_nonneg : ∀ (l : List Rat), (∀ x ∈ l, 0 ≤ x) → l.sum = 0 → ∀ x ∈ l, x = 0
   | [], _, _ => by simp
   | a :: l, h, hs => by
     have ha : 0 ≤ a := h a (by simp)
-    have hl : 0 ≤ l.sum := List.sum_nonneg (fun x hx => h x (by simp [hx]))
+    have hl : 0 ≤ l.sum := list_sum_nonneg l (fun x hx => h x (by simp [hx]))
     simp only [List.sum_cons] at hs
     have ha0 : a = 0 := by linarith
     have hl0 : l.sum = 0 := by linarith
